@@ -288,6 +288,54 @@ def extract_syntax():
     write_if_changed(os.path.join(GEN, "Grammar.lean"), t)
     return 0
 
+def extract_pre():
+    """constants of the front half (C06 / C18 / C19 models): reserved names, builtin names, std constants,
+    the range size cap -> lean/Rooc/Gen/PreConsts.lean  [agent-pre]"""
+    errs = []
+    rt = open(os.path.join(SRC, "runtime_builtin/reserved_tokens.rs")).read()
+    m = re.search(r"static ref RESERVED_TOKEN.*?\n    \};", rt, re.S)
+    lits = re.findall(r'm\.insert\("([^"]+)"\.to_string\(\), TokenType::\w+\);', m.group(0)) if m else []
+    if not lits or "BlockFunctionKind::kinds_to_string()" not in rt or "BlockScopedFunctionKind::kinds_to_string()" not in rt or "make_std()" not in rt:
+        errs.append("RESERVED_TOKEN")
+    bf = open(os.path.join(SRC, "parser/il/block_functions.rs")).read()
+    def display_names(ty):
+        m = re.search(r"impl fmt::Display for " + ty + r" \{.*?let s = match self \{(.*?)\};", bf, re.S)
+        return re.findall(r'Self::\w+ => "([a-z_]+)"\.to_string\(\)', m.group(1)) if m else []
+    blocks, scoped = display_names("BlockFunctionKind"), display_names("BlockScopedFunctionKind")
+    if not blocks or not scoped:
+        errs.append("Display for BlockFunctionKind / BlockScopedFunctionKind")
+    std = open(os.path.join(SRC, "runtime_builtin/rooc_std.rs")).read()
+    m = re.search(r"pub fn make_std\(\).*?\n\}", std, re.S)
+    fns = re.findall(r'"([A-Za-z_]+)"\.to_string\(\)', m.group(0)) if m else []
+    m = re.search(r"pub fn make_std_constants\(\).*?\n\}", std, re.S)
+    consts = re.findall(r'Constant::from_primitive\("([A-Za-z]+)"', m.group(0)) if m else []
+    if not fns or not consts:
+        errs.append("make_std / make_std_constants")
+    nf = open(os.path.join(SRC, "runtime_builtin/functions/number_functions.rs")).read()
+    m = re.search(r"pub const MAX_RANGE_SIZE: i64 = ([0-9_]+);", nf)
+    if not m:
+        errs.append("MAX_RANGE_SIZE")
+    if errs:
+        print("extractor could not re-read: " + "; ".join(errs))
+        return 1
+    lst = lambda xs: "[" + ", ".join(lstr(x) for x in xs) + "]"
+    t = "/- GENERATED by tools/extract.py from reserved_tokens.rs, block_functions.rs, rooc_std.rs and number_functions.rs — do not edit. -/\nnamespace Rooc.Gen\n"
+    t += "/-- the string literals inserted into `RESERVED_TOKEN` -/\n"
+    t += f"def reservedTokenLiterals : List String := {lst(lits)}\n"
+    t += "/-- `Display for BlockFunctionKind` (`kinds_to_string`) -/\n"
+    t += f"def blockFunctionNames : List String := {lst(blocks)}\n"
+    t += "/-- `Display for BlockScopedFunctionKind` -/\n"
+    t += f"def scopedFunctionNames : List String := {lst(scoped)}\n"
+    t += "/-- keys of `make_std()` -/\n"
+    t += f"def stdFunctionNames : List String := {lst(fns)}\n"
+    t += "/-- names of `make_std_constants()`, in order -/\n"
+    t += f"def stdConstantNames : List String := {lst(consts)}\n"
+    t += "/-- `MAX_RANGE_SIZE` -/\n"
+    t += f"def maxRangeSize : Nat := {int(m.group(1).replace('_', ''))}\n"
+    t += "end Rooc.Gen\n"
+    write_if_changed(os.path.join(GEN, "PreConsts.lean"), t)
+    return 0
+
 def main():
     errs = []
     # --- precedence / associativity tables of BinOp (math/operators.rs)
@@ -331,6 +379,14 @@ def main():
     m5 = re.findall(r"let use_bland = stalls > stall_limit;", tab)
     if not m3 or len(m4) != 2 or len(set(m4)) != 1 or len(m5) != 2:
         errs.append("simplex phase-1 limit / stall_limit formula")
+    # ratio test of find_t: tolerant ties (`if float_eq(ratio, min.1)` ... `else if float_lt(ratio, min.1)`) or
+    # exact (`if ratio < min.1` ... `else if ratio == min.1`), see fixes/C14-ratio-test-exact.diff  [agent-std]
+    ft = re.search(r"fn find_t\(.*?\n    \}\n", tab, re.S)
+    ft = ft.group(0) if ft else ""
+    tolerant = bool(re.search(r"if float_eq\(ratio, min\.1\) \{", ft)) and bool(re.search(r"\} else if float_lt\(ratio, min\.1\) \{", ft))
+    exact = bool(re.search(r"if ratio < min\.1 \{", ft)) and bool(re.search(r"\} else if ratio == min\.1 \{", ft))
+    if tolerant == exact:
+        errs.append("find_t ratio test (neither / both of the two known shapes)")
     if errs:
         print("extractor could not re-read: " + "; ".join(errs))
         return 1
@@ -338,6 +394,9 @@ def main():
     t += f"def phase1IterationLimit : Nat := {int(m3.group(1))}\n"
     t += f"/-- `stall_limit = c.len() + a.len() + stallLimitExtra`; Bland's rule once `stalls > stall_limit`. -/\n"
     t += f"def stallLimitExtra : Nat := {int(m4[0])}\n"
+    t += "/-- `find_t`: `true` = exact ratio test (smaller ratio wins, Bland's index rule on EXACT ties only);\n"
+    t += "`false` = ties within the tolerance (`float_eq`) go to the smaller basic index. -/\n"
+    t += f"def ratioTestExact : Bool := {'true' if exact else 'false'}\n"
     t += "end Rooc.Gen\n"
     write_if_changed(os.path.join(GEN, "Simplex.lean"), t)
     low = lambda s: s[0].lower() + s[1:]
@@ -354,6 +413,9 @@ def main():
     t += "end Rooc.Gen\n"
     write_if_changed(os.path.join(GEN, "Consts.lean"), t)
     rc = extract_syntax()
+    if rc:
+        return rc
+    rc = extract_pre()
     if rc:
         return rc
     # --- operator tables by runtime reflection through the harness (C18 / C19), see tools/gen_optables.py
